@@ -72,7 +72,8 @@ TYPES = [
                       F("plain", P("string"), optional=True), F("req", P("int32"))]),
     # container defaults that merely CONTAIN an empty container or the text of one
     record("DefNested", [F("aa", A(A(P("int32"))), default="[[1],[]]"), F("mm", M(M(P("string"))), default="{\"k\":{}}"),
-                         F("texts", A(P("string")), default="[\"x[]y\",\"{}\"]"), F("req", P("int32"))]),
+                         F("texts", A(P("string")), default="[\"x[]y\",\"{}\",\"two  words\",\" padded \"]"),
+                         F("sp", M(P("string")), default="{\"first key\":\"a\\tb c\"}"), F("req", P("int32"))]),
     record("DefAfter", [F("n", P("int32"), default="3"), F("s", P("string")), F("arr", A(P("int32")), optional=True), F("inner", R("DefPrims")), F("tail", R("DefContainers"))]),
     record("DefOuter", [F("inner", R("DefPrims")), F("n", P("int32"), default="3"), F("oinner", R("DefPrims"), optional=True)]),
     record("KeyPart", [F("id", P("string")), F("n", P("int64"))]),
